@@ -276,6 +276,30 @@ class Exec:
             ran = self.tick(ev[1])
             self.events.append({'ev': ev, 'ran': ran})
             return None
+        if kind == 'ext_soon':
+            # whoever holds the process schedules a callback on it (also before its first step)
+            mode, tag = ev[1], ev[2]
+            proc = self.proc
+            pid = proc.pid
+
+            def callback():
+                from plumpy.processes import Process as _P
+
+                self.world.tr(pid, {'k': 'cb', 'tag': tag, 'cur': _P.current() is proc, 'state': proc.state.value})
+                programs._hook_point(proc, 'cb:' + tag, 'pre')
+                if mode == 'raise':
+                    exc = programs.ProgError(tag)
+                    self.world.extra.setdefault('cb_excs', {}).setdefault(tag, []).append(exc)
+                    raise exc
+
+            with self.loop.as_running():
+                try:
+                    proc.call_soon(callback)
+                except Exception as exc:  # noqa: BLE001
+                    self.harness_errors.append(f'call_soon raised {exc!r}')
+            self.events.append({'ev': ev})
+            self.sample(kind)
+            return None
         if kind == 'close':
             # the owner declares that the process will not be run any more (public close(), also on a live process):
             # it drops the lifecycle callbacks, later control calls still work on the bare state machine
